@@ -29,25 +29,29 @@ def _balanced(txt, i):
     raise ValueError("unbalanced")
 
 
-def extract_clauses(spec, defs, incs):
-    """{fn: [(label, expr)]} from the contract headers, after preprocessing."""
+def extract_clauses(spec, defs, incs, cbmc=False):
+    """{fn: [(label, expr)]}: the ensures clauses of every contract visible to the
+    harness, obtained by preprocessing the harness itself with -DVERIF_EXTRACT
+    (ENS(label, e) then expands to a marker; see os/ghost.h)."""
     out = {}
+    cmd = ["gcc", "-E", "-P", "-w", "-DVERIF_EXTRACT"] + ([] if cbmc else ["-DVERIF_NATIVE"]) + defs + incs + \
+          ["-include", os.path.join(VERIF, "os", "rename.h")]
     for ch in spec.get("contracts", []):
-        cmd = ["gcc", "-E", "-P", "-DVERIF_EXTRACT", "-DVERIF_NATIVE"] + defs + incs + \
-              ["-include", os.path.join(VERIF, "os", "rename.h"), os.path.join(VERIF, "contracts", ch)]
-        txt = subprocess.run(cmd, capture_output=True, text=True).stdout
-        cur = None
-        for m in re.finditer(r'@@FN\s+(\w+)\s+@@|@@ENS\s+"([^"]+)"\s+@@(.*?)@@END', txt, re.S):
-            if m.group(1):
-                cur = m.group(1)
-                out.setdefault(cur, [])
-            elif cur:
-                out[cur].append((m.group(2), " ".join(m.group(3).split())))
+        cmd += ["-include", os.path.join(VERIF, "contracts", ch)]
+    cmd += [os.path.join(VERIF, "harness", spec["src"])]
+    txt = subprocess.run(cmd, capture_output=True, text=True).stdout
+    cur = None
+    for m in re.finditer(r'@@FN\s+(\w+)\s+@@|@@ENS\s+"([^"]+)"\s+@@(.*?)@@END', txt, re.S):
+        if m.group(1):
+            cur = m.group(1)
+            out.setdefault(cur, [])
+        elif cur:
+            out[cur].append((m.group(2), " ".join(m.group(3).split())))
     return out
 
 
-def gen_includes(spec, d, defs, incs):
-    clauses = extract_clauses(spec, defs, incs)
+def gen_includes(spec, d, defs, incs, cbmc=False):
+    clauses = extract_clauses(spec, defs, incs, cbmc)
     htxt = open(os.path.join(VERIF, "harness", spec["src"])).read()
     os.makedirs(os.path.join(d, "gen"), exist_ok=True)
     for fn in set(re.findall(r'#include "gen/p(?:re|ost)_(\w+)\.inc"', htxt)):
@@ -64,10 +68,19 @@ def gen_includes(spec, d, defs, incs):
                 if inner not in olds:
                     olds.append(inner)
                 expr = expr[:k] + "verif_old_%s_%d" % (fn, olds.index(inner)) + expr[e:]
-            posts.append('  if (!(%s)) verif_assert_fail("%s", "contract of %s", 0);' % (expr, label, fn))
+            if cbmc:
+                posts.append('  __CPROVER_assert(%s, "%s");' % (expr, label))
+            else:
+                posts.append('  if (!(%s)) verif_assert_fail("%s", "contract of %s", 0);' % (expr, label, fn))
         with open(os.path.join(d, "gen", "pre_%s.inc" % fn), "w") as f:
             for i, inner in enumerate(olds):
-                f.write("  __typeof__(%s) verif_old_%s_%d = (%s);\n" % (inner, fn, i, inner))
+                # snapshots through a pointer that may be NULL are taken only if it is not
+                m = re.match(r"^\s*(?:\*\s*(\w+)\s*$|(\w+)\s*->|(\w+)\s*\[)", inner)
+                base = m and (m.group(1) or m.group(2) or m.group(3))
+                if base:
+                    f.write("  __typeof__(%s) verif_old_%s_%d; if (%s) verif_old_%s_%d = (%s);\n" % (inner, fn, i, base, fn, i, inner))
+                else:
+                    f.write("  __typeof__(%s) verif_old_%s_%d = (%s);\n" % (inner, fn, i, inner))
         with open(os.path.join(d, "gen", "post_%s.inc" % fn), "w") as f:
             f.write("\n".join(posts) + "\n")
 
